@@ -515,6 +515,53 @@ def case_transparency(rep, spec):
                           f"{z['name']}.{meth}: result on the model and on unwrap(model) differ: {a1} vs {a2}", {"spec": spec})
 
 
+def frozen_through_accessors(rep: Report, rng: random.Random):
+    """A frozen component taken out of a model through a public accessor (chain[i], chain[a:b], .bijection, .base_dist,
+    iteration) and re-used in a new model is still frozen: after training the new model every floating leaf of the piece is
+    bit-identical."""
+    from flowjax import bijections as bj
+    from flowjax import distributions as ds
+    from flowjax.train import fit_to_data
+    from flowjax.wrappers import non_trainable, unwrap
+
+    def aff(seed):
+        rs = np.random.default_rng(seed)
+        return bj.Affine(jnp.asarray(rs.normal(size=2)), jnp.asarray(rs.uniform(0.5, 2.0, size=2)))
+
+    def frozen_chain():
+        return bj.Chain([non_trainable(aff(1)), bj.Tanh((2,)), non_trainable(aff(2)), aff(3)])
+    scenarios = {
+        "Chain[0]": lambda: frozen_chain()[0], "Chain[-2]": lambda: frozen_chain()[-2], "Chain[2]": lambda: frozen_chain()[2],
+        "Chain[0:1]": lambda: frozen_chain()[0:1], "Chain[2:3]": lambda: frozen_chain()[2:3],
+        "Chain.bijections[0]": lambda: frozen_chain().bijections[0],
+        "next(iter(Chain.bijections))": lambda: next(iter(frozen_chain().bijections)),
+        "Invert(frozen).bijection": lambda: bj.Invert(non_trainable(aff(4))).bijection,
+        "Transformed(..., frozen).bijection": lambda: ds.Transformed(ds.Normal(jnp.zeros(2)), non_trainable(aff(5))).bijection,
+        "merged Transformed(Transformed(.., frozen), b).bijection[0]":
+            lambda: ds.Transformed(ds.Transformed(ds.StandardNormal((2,)), non_trainable(aff(6))), aff(7)).merge_transforms().bijection[0],
+        "Chain of a frozen Chain, [0][0]": lambda: bj.Chain([non_trainable(bj.Chain([aff(8), aff(9)])), aff(10)])[0],
+    }
+    x = jnp.asarray(np.random.default_rng(rng.randrange(2**31)).normal(size=(24, 2)))
+    for name, get in scenarios.items():
+        rep.count(1, ("accessor", name))
+        try:
+            piece = get()
+            before = [np.asarray(l).copy() for l in jax.tree_util.tree_leaves(unwrap(piece)) if eqx.is_inexact_array(l)]
+            model = ds.Transformed(ds.Normal(jnp.zeros(2), jnp.ones(2)), piece)
+            out, _ = fit_to_data(jr.PRNGKey(3), model, x, max_epochs=2, batch_size=8, optimizer=optax.sgd(0.1), show_progress=False, return_best=False)
+            after = [np.asarray(l) for l in jax.tree_util.tree_leaves(unwrap(out.bijection)) if eqx.is_inexact_array(l)]
+            base_moved = not np.array_equal(np.asarray(out.base_dist.loc), np.zeros(2))
+        except Exception as e:  # noqa: BLE001
+            rep.violation({"accessor": name, "error": type(e).__name__}, f"frozen piece through {name}: {type(e).__name__}: {str(e)[:200]}")
+            continue
+        if not base_moved:
+            rep.machinery_failure(f"frozen_through_accessors: training did not move the trainable base in scenario {name}")
+        if len(before) != len(after) or any(not np.array_equal(a, b) for a, b in zip(before, after)):
+            rep.violation({"accessor": name, "what": "frozen leaf moved"},
+                          f"a frozen component taken out with {name} and trained inside a new model moved: {[b.tolist() for b in before]} -> "
+                          f"{[a.tolist() for a in after]}")
+
+
 def frozen_real_flows(rep: Report, rng: random.Random, count: int, traces: list):
     """Real flows with frozen subsets, trained by both loops with real optimisers: digests per leaf."""
     from flowjax import distributions as ds
@@ -612,6 +659,7 @@ def main():
     pop = [sp for sp in zoo.specs(t, rep.seed, []) if sp["src"] in ("leaf", "flow")]
     pool.map_cases(rep, "harness.c12", "case_transparency", pop, chunk=6, clear_every=10)
     frozen_real_flows(rep, rng, 36 if thorough else 12, traces)
+    frozen_through_accessors(rep, rng)
     stats = tracecheck.check(rep, "Trace_Unwrap", "Trace_Unwrap_I.cfg", traces, P_GUARDS, pid=PID,
                              describe=lambda tr: {"tree": tr["cfg"]["term"], "opt": tr["cfg"]["opt"],
                                                   "loop": tr["cfg"]["loop"], "steps": tr["cfg"]["steps"]})
